@@ -79,6 +79,27 @@ def _one(args):
                         if not close(got, R(exp[key])):
                             out.append(({"fn": fname, "kind": "value", "weighted": weighted, "enc": repr((neg, pos, pl))},
                                         f"{fname} = {got!r}, specification says {exp[key]}", {"y_true": yt, "y_pred": yp, "kwargs": repr(k2)}))
+                # predictions / weights handed over as a column vector (n, 1) - also for n = 1
+                if oi == 0 and not isinstance(neg, str):
+                    for fname, kw2, expv in (("selection_rate", dict(pos_label=pos if pl is None else pl), None), ("mean_prediction", {}, "mean")):
+                        if fname == "selection_rate" and swapped != (pl is not None and pl == neg):
+                            pass
+                        try:
+                            k3 = dict(kw2)
+                            if weighted:
+                                k3["sample_weight"] = np.array(wts).reshape(-1, 1)
+                            got = getattr(fm, fname)(yt, np.array(yp).reshape(-1, 1), **k3)
+                            if fname == "selection_rate":
+                                e = R(case[("w" if weighted else "u")]["sel"]) if k3["pos_label"] == pos else 1 - R(case[("w" if weighted else "u")]["sel"])
+                            else:
+                                e = neg + (pos - neg) * R(case[("w" if weighted else "u")]["mean"])
+                            nevals += 1
+                            if np.ndim(got) != 0:
+                                out.append(({"fn": fname, "kind": "not_scalar", "container": "column", "n1": n == 1}, f"{fname} with (n,1) inputs returned non-scalar {got!r}", {"y_pred": yp}))
+                            elif not close(got, e):
+                                out.append(({"fn": fname, "kind": "value", "container": "column"}, f"{fname} with (n,1) inputs = {got!r}, specification {e}", {"y_pred": yp, "kw": repr(k3)}))
+                        except Exception as e2:
+                            out.append(({"fn": fname, "kind": "exception", "container": "column", "n1": n == 1}, f"{fname} with (n,1) inputs raised {e2!r}", {"y_pred": yp}))
                 # mean_prediction: numeric encodings only; expected lo + (hi-lo)*mean of abstract class
                 if not isinstance(neg, str) and not swapped:
                     nevals += 1
